@@ -217,7 +217,7 @@ theorem C19_same_when_valid (r : RenderReq)
         { r.bcfg with booleanAttrs := (match r.booleanAttrs with | some b => b | none => if (r.xmlMode.getD (isXmlDoc r.src) && !r.textMode) then [] else r.htmlBooleans),
                       escape := !r.textMode } r.textMode
         (if (r.xmlMode.getD (isXmlDoc r.src) && !r.textMode) then r.src else normalizeNewlines r.src) = .ok (node, macros) →
-      compileCheck { rx := r.bcfg.rx, q := r.bcfg.q, oracle := r.oracle } true
+      compileCheck { rx := r.bcfg.rx, q := r.bcfg.q, oracle := r.oracle, decodeInterp := !r.textMode } true
         (8 * (if (r.xmlMode.getD (isXmlDoc r.src) && !r.textMode) then r.src else normalizeNewlines r.src).length + 64) macros node = .ok ()) :
     render (r.withStrict false) = render (r.withStrict true) := by
   unfold render RenderReq.withStrict
